@@ -1,10 +1,168 @@
 /-
-C32 — Clock expiry only expires eligible tasks.  (theorems: work in progress)
+C32 — Clock expiry only expires eligible tasks.
+
+Statements over the `Sched3Exp` model (Sched2 + virtual clock + `clock_expire_tasks` / `clock_expire` /
+`process_message(expired)` / spawning on the `expired` output + manual trigger of one task), for every instance
+graph and every op list.  Every transition of a proxy into `expired` is recorded in `State.expLog` by the one
+function that performs it (`processExpired`), with the proxy as it was immediately before and the clock; the log
+of every op is compared with the expiry events of the real scheduler by the correspondence check.
+Proofs by reference to `Sched3ExpLemmas*` (one lemma per primitive of the model, lifted over all op lists).
 -/
-import CylcModel.Sched3Exp
+import CylcModel.Sched3ExpLemmasL
+import CylcModel.Sched3ExpLemmasK2
 namespace CylcModel.C32
 open CylcModel.Sched3Exp
 
-theorem placeholder : True := trivial
+/-! ### expire_guard -/
+
+/-- **expire_guard**, full statement: in every state of every run, every expiry logged by the op that led to the
+state was a *waiting*, *not manually triggered* proxy with an expiry time, and the clock had reached that time. -/
+def expire_guard_full : Prop :=
+  ∀ (g : Graph) (ops : List Op), ∀ s ∈ run g ops, ∀ e ∈ s.expLog, GoodEvent e
+
+/-- **expire_guard** for histories in which no job sends the message text `expired`. -/
+theorem expire_guard_partial (g : Graph) (ops : List Op) (h : NoExpiredMsg ops) :
+    ∀ s ∈ run g ops, ∀ e ∈ s.expLog, GoodEvent e :=
+  fun s hs => goodLog_run g ops (Or.inl h) s hs
+
+/-- **expire_guard** holds for all histories once a job message `expired` is ignored
+(`ExpFlags.jobMsgExpires = false`, probed from the live code: findings/C32-proposal-1.diff). -/
+theorem expire_guard_live (h : ExpFlags.jobMsgExpires = false) : expire_guard_full :=
+  fun g ops s hs => goodLog_run g ops (Or.inr h) s hs
+
+/-- a one-cycle workflow: `a` (clock-expire, expiry time 7200) with `a:expire? => b` -/
+def exGraph : Graph :=
+  { icp := 1, fcp := 1, start := 1, runahead := 1, seqs := [[1]], stopPoint := some 1, now0 := 3600,
+    tasks := [
+      { name := "a",
+        insts := [(1, { pre := [], sui := [], children := [("expired", [⟨"b", 1, false⟩])], nextParentless := none,
+                        expire := some 7200 })],
+        firstParentless := some 1,
+        completion := CE.or (CE.var "succeeded") (CE.var "expired"),
+        outputs := [⟨"expired", "expired"⟩, ⟨"succeeded", "succeeded"⟩] },
+      { name := "b",
+        insts := [(1, { pre := [{ atoms := [(⟨1, "a", "expired"⟩, false)], expr := none }], sui := [], children := [],
+                        nextParentless := none })],
+        firstParentless := none,
+        completion := CE.var "succeeded",
+        outputs := [⟨"succeeded", "succeeded"⟩] }] }
+
+/-- the code as found: a job message `expired` expires a task that is *preparing*, one hour before its expiry
+time (the real scheduler does the same: finding `job-message-expired`). -/
+theorem expire_guard_counterexample (h : ExpFlags.jobMsgExpires = true) : ¬ expire_guard_full := by
+  first
+    | exact absurd h (by decide)
+    | (intro hall
+       have hbad : ∃ s ∈ run exGraph [.loop, .msg 1 "a" 1 "expired", .loop], ∃ e ∈ s.expLog,
+           e.frm = Status.preparing ∧ e.now = 3600 ∧ e.exp = some 7200 := by decide
+       obtain ⟨s, hs, e, he, hf, _, _⟩ := hbad
+       have := (hall exGraph _ s hs e he).1
+       rw [hf] at this
+       exact absurd this (by decide))
+
+/-- the statement about the code under test, whichever behaviour `translate()` found in it -/
+theorem expire_guard_code (g : Graph) (ops : List Op)
+    (h : ExpFlags.jobMsgExpires = true → NoExpiredMsg ops) : ∀ s ∈ run g ops, ∀ e ∈ s.expLog, GoodEvent e := by
+  cases hf : ExpFlags.jobMsgExpires with
+  | false => exact fun s hs => goodLog_run g ops (Or.inr hf) s hs
+  | true => exact fun s hs => goodLog_run g ops (Or.inl (h hf)) s hs
+
+-- non-vacuity: the clock reaches 7200, the next main loop expires the waiting 1/a (one good event) and spawns 1/b;
+-- with a manual trigger in between nothing expires and 1/a is submitted
+example : NoExpiredMsg [.tick 3600, .loop] ∧
+    ((run exGraph [.tick 3600, .loop]).map fun s => s.expLog.map fun e => (e.pt, e.name, e.frm, e.manual)) =
+      [[], [], [(1, "a", Status.waiting, false)]] ∧
+    ((run exGraph [.tick 3600, .loop]).map fun s => s.expLog.map fun e => (e.exp, e.now)) =
+      [[], [], [(some 7200, 7200)]] := by
+  refine ⟨?_, by decide, by decide⟩
+  intro p n sn t hm; simp at hm
+
+example : ((run exGraph [.tick 3600, .trig 1 "a", .loop]).map fun s => (s.expLog.length, s.launched)) =
+    [(0, []), (0, []), (0, []), (0, [(1, "a", 1)])] := by decide
+
+/-! ### expired_never_submits -/
+
+/-- **expired_never_submits** (state form): in every state of every run an expired proxy is not queued, not marked
+for manual submission (flag, `waiting_on_job_prep`, `tasks_to_trigger_now`) - nothing that `release_tasks_to_run`
+looks at can select it. -/
+theorem expired_inert (g : Graph) (ops : List Op) (h : NoExpiredMsg ops ∨ ExpFlags.jobMsgExpires = false) :
+    ∀ s ∈ run g ops, ∀ x ∈ s.pool, x.status = .expired →
+      x.queued = false ∧ x.manual = false ∧ x.wjp = false ∧ (x.pt, x.name) ∉ s.toTrigger := by
+  intro s hs x hx he
+  have hinv := inv_run g ops h s hs
+  obtain ⟨hq, hm, _⟩ := (hinv.1 x hx).2 he
+  refine ⟨hq, hm, ?_, ?_⟩
+  · cases hw : x.wjp with
+    | false => rfl
+    | true => have := (hinv.1 x hx).1 hw; rw [hm] at this; exact absurd this (by decide)
+  · intro hk
+    have := hinv.2.1 _ hk x hx rfl
+    rw [hm] at this; exact absurd this (by decide)
+
+/-- **expired_never_submits** (trace form): along every run, every job launch is recorded by a main loop, for a proxy
+that was in the pool and **not expired** at the moment that loop handed it to job submission - which is after the
+clock expiry of the same loop (`releasePoint` = the state after the queue sweep and `clock_expire_tasks`). -/
+theorem expired_never_submits (g : Graph) (ops pre post : List Op) (op : Op)
+    (h : NoExpiredMsg ops ∨ ExpFlags.jobMsgExpires = false) (he : ops = pre ++ op :: post) :
+    ∀ l ∈ (step g (pre.foldl (step g) (init g)) op).launched,
+      op = .loop ∧ ∃ r, releasePoint g (clearOp (pre.foldl (step g) (init g))) = some r ∧
+        ∃ x ∈ r.pool, x.pt = l.1 ∧ x.name = l.2.1 ∧ x.status ≠ .expired := by
+  apply step_launch_not_expired
+  apply inv_foldl g pre _ (inv_init g)
+  rcases h with h | h
+  · exact Or.inl ⟨queueOK_init g, noExpiredMsg_prefix (he ▸ h)⟩
+  · exact Or.inr h
+
+/-- the expiry itself takes the proxy out of its queue: whatever proxy `state_reset(expired)` is applied to -/
+theorem expiry_unqueues (x : Proxy) : x.expireReset.status = .expired ∧ x.expireReset.queued = false := by
+  unfold Proxy.expireReset
+  exact ⟨reset_status_some _ _ _ _ _, reset_queued_some _ _ _ _ _⟩
+
+-- non-vacuity: 1/a is queued at start-up; the clock passes its expiry time; the main loop expires it and launches
+-- nothing for it; it stays out of every later launch
+example : ((run exGraph [.tick 3600, .loop, .loop, .loop]).map fun s => s.pool.map fun x => (x.pt, x.name, x.status)) =
+      [[(1, "a", Status.waiting)], [(1, "a", Status.waiting)], [(1, "b", Status.waiting)],
+       [(1, "b", Status.preparing)], [(1, "b", Status.preparing)]] ∧
+    ((run exGraph [.tick 3600, .loop, .loop, .loop]).map fun s => s.launched) =
+      [[], [], [], [(1, "b", 1)], []] ∧
+    ((run exGraph [.tick 3600, .loop, .loop, .loop]).map fun s => s.expLog.map fun e => (e.pt, e.name, e.queued)) =
+      [[], [], [(1, "a", true)], [], []] := by
+  refine ⟨by decide, by decide, by decide⟩
+
+/-! ### expire_children -/
+
+/-- **expire_children**, upper bound, for every state and every pooled proxy: after the `expired` output of the
+proxy is processed, every key in the pool was in the pool before, or is a child of that output in the graph, or is the
+next parentless instance of a proxy removed meanwhile (a child with a suicide trigger on the output). -/
+theorem expire_children_only (g : Graph) (s : State) (x x0 : Proxy) (hx : s.get? x.pt x.name = some x0) :
+    ∀ z ∈ (processExpired g s x false).pool,
+      (z.pt, z.name) ∈ keysOf s.pool ∨
+      (z.pt, z.name) ∈ (childrenOf g x "expired").map (fun c => (c.pt, c.name)) ∨
+      ∃ y ∈ (processExpired g s x false).ghosts, y.name = z.name ∧ nextParentless g y = some z.pt :=
+  fun z hz => processExpired_keys g s x x0 hx z hz
+
+/-- **expire_children**, lower bound, one child at a time: after the step of `spawn_on_output` that handles child `c`
+of the `expired` output of `(p, n)`, every proxy in the pool under the key of `c` - found there, or just spawned -
+has all its prerequisite atoms (ordinary and suicide) on that output satisfied. -/
+theorem expire_children_satisfied (g : Graph) (p : Int) (n : String) (acc : State × List (Int × String)) (c : Child) :
+    ∀ z ∈ (spawnChild g p n "expired" acc c).1.pool, z.pt = c.pt → z.name = c.name →
+      AtomSat z ⟨p, n, "expired"⟩ :=
+  spawnChild_sat g p n "expired" acc c
+
+/-- **expire_children** along runs, no hypothesis on the history: every expiry event of every run (of a proxy that
+was still in the pool) reports as *added to the pool* only children of the `expired` output of the expired instance,
+or the next parentless instance of a task that the same event reports as *removed*. -/
+theorem expire_children_logged (g : Graph) (ops : List Op) :
+    ∀ s ∈ run g ops, ∀ e ∈ s.expLog, e.tr = false → ∀ k ∈ e.added,
+      k ∈ kidsAt g e.pt e.name ∨ ∃ r ∈ e.removed, r.2 = k.2 ∧ nextParentlessAt g r = some k.1 :=
+  fun s hs e he => goodKids_run g ops s hs e he
+
+-- non-vacuity: the expiry of 1/a spawns exactly its expire child 1/b, with the prerequisite on 1/a:expired satisfied
+example : ((run exGraph [.tick 3600, .loop]).map fun s => s.pool.map fun x => (x.pt, x.name, x.prereqsSatisfied)) =
+      [[(1, "a", true)], [(1, "a", true)], [(1, "b", true)]] ∧
+    ((run exGraph [.tick 3600, .loop]).map fun s => s.expLog.map fun e => e.added) = [[], [], [[(1, "b")]]] ∧
+    ((run exGraph [.tick 3600, .loop]).map fun s => s.expLog.map fun e => e.sat) = [[], [], [[(1, "b")]]] ∧
+    ((run exGraph [.tick 3600, .loop]).map fun s => s.expLog.map fun e => e.removed) = [[], [], [[(1, "a")]]] := by
+  refine ⟨by decide, by decide, by decide, by decide⟩
 
 end CylcModel.C32
